@@ -2,7 +2,7 @@
    fails to compile if Props/C06.v is weakened, renamed or given other hypotheses. *)
 From Coq Require Import SpecFloat.
 Require Import Base Value Float PrintOptions Printer ParseOptions Utf8 Reader Scan Num NumberOps Parser.
-Require Import RelFramework IoProofs RoundtripProofs TextProofs.
+Require Import RelFramework IoProofs RoundtripProofs TextProofs SimFramework InterruptProofs.
 Require Import Lexpr.Props.C06.
 Local Open Scope nat_scope.
 
@@ -37,6 +37,29 @@ Check (C06_sources_agree_partial :
   rt_ok alpha v -> rdepth v <= 127 ->
   from_trait default_ro alpha fast std_parse k1 (bytes_events (print0 ryu v)) =
   from_trait default_ro alpha fast std_parse k2 (bytes_events (print0 ryu v))).
+
+Check (C06_interrupts_invisible_call :
+  forall ro alpha fast std_parse fuel s1 s2, iprel s1 s2 ->
+  fst (next_value ro alpha fast std_parse fuel s1) = fst (next_value ro alpha fast std_parse fuel s2) /\
+  iprel (snd (next_value ro alpha fast std_parse fuel s1)) (snd (next_value ro alpha fast std_parse fuel s2))).
+
+Check (C06_interrupts_invisible_datum_call :
+  forall ro alpha fast std_parse fuel s1 s2, iprel s1 s2 ->
+  fst (next_datum ro alpha fast std_parse fuel s1) = fst (next_datum ro alpha fast std_parse fuel s2) /\
+  iprel (snd (next_datum ro alpha fast std_parse fuel s1)) (snd (next_datum ro alpha fast std_parse fuel s2))).
+
+Check (C06_interrupts_invisible :
+  forall ro alpha fast std_parse fuel inp1 inp2, strip inp1 = strip inp2 ->
+  from_trait_with ro alpha fast std_parse fuel SrcIo inp1 = from_trait_with ro alpha fast std_parse fuel SrcIo inp2 /\
+  forall n, iterate_values ro alpha fast std_parse fuel n (init_state SrcIo inp1) =
+            iterate_values ro alpha fast std_parse fuel n (init_state SrcIo inp2)).
+
+Check (C06_interrupts_nonvacuous :
+  let a := [EInterrupted; EByte 40; EInterrupted; EInterrupted; EByte 97; EByte 32; EInterrupted; EByte 34; EByte 120; EInterrupted; EByte 34; EByte 41; EInterrupted] in
+  let b := bytes_events (s2b "(a ""x"")") in
+  strip a = strip b /\
+  from_trait default_ro (fun _ => true) true dec_to_f64 SrcIo a = POk (vlist [Symbol (s2b "a"); String (s2b "x")]) /\
+  from_trait default_ro (fun _ => true) true dec_to_f64 SrcIo b = POk (vlist [Symbol (s2b "a"); String (s2b "x")])).
 
 Check (C06_nonvacuous :
   let run inp := from_trait default_ro (fun _ => true) true dec_to_f64 SrcIo inp in
